@@ -63,6 +63,7 @@ class Instrument:
 
         if self.per_task:
             session.call_hooks.append(self)
+            session.observer.rollback_hooks.append(self.on_rollback)
         session.patches.append((Scheduler, "pop_next_job", pop_next_job))
         session.patches.append((Builder, "job_loop", job_loop))
 
@@ -124,6 +125,18 @@ class Instrument:
                 self.open_calls[task].append((ncommit, changed, self.prev, cur))
         self.prev = cur
         self.first = False
+
+    def on_rollback(self, con):
+        self.counts["rollbacks"] = self.counts.get("rollbacks", 0) + 1
+        if self.prev is None:
+            return
+        tables = dump_tables(con)
+        changed = [t for t in tables if tables[t] != self.prev.tables[t]]
+        if changed:
+            self.note("atomicity/rolled-back-transaction-left-changes",
+                      f"after the rollback {changed} differ from the last committed state: "
+                      + table_diff(self.prev.tables, tables))
+            self.prev = inv.View(tables)
 
     # -- C15: requests of simulated steps (called from Session._call, same task as the handler)
 
